@@ -409,6 +409,22 @@ def label_kind(label):
     w = label.split()
     if w[0] == "run":
         return "run:" + w[1][0]
+    if w[0] in ("apply", "cfg"):
+        # which failure pattern the request / the SimpleTaskPool's function carries: none, every
+        # call fails, or a genuine mix of failing and non-failing invocations
+        kv = dict(x.split("=", 1) for x in w[1:] if "=" in x)
+        pat = kv.get("bad", "0")
+        if w[0] == "cfg" and kv.get("kind") != "simple":
+            return "cfg"
+        if pat == "1":
+            return w[0] + ":bad=all"
+        if pat.startswith("p") and "1" in pat:
+            bits = pat[1:]
+            if w[0] == "apply":
+                n = int(kv.get("num", "0"))
+                bits = (bits + "0" * n)[:n]
+            if "1" in bits:
+                return w[0] + (":bad=mixed" if "0" in bits else ":bad=all")
     return w[0]
 
 
